@@ -159,6 +159,8 @@ class PanicSites:
                     return self._contains_guard(b, bi, t["args"][0], t["args"][1])
                 # Vec / slice indexed by an integer: i < len (and i >= 0 when it comes from a signed value) on every path
                 ity = (t.get("arg_tys") or ["", ""])[1]
+                if "RangeFull" in ity:
+                    return "indexing with the full range `[..]` cannot fail"
                 if ity in ("usize",):
                     return self.rel.index_ok(b, bi, t["args"][0], t["args"][1])
                 # range indexing of strings / slices
